@@ -251,7 +251,9 @@ func leafMeasure(s leafSchema, k leafKind) (row leafRow) {
 					}
 				}
 			}()
-			_ = codec.Read(avro.NewReadBuf(append([]byte(nil), enc...)), hv.UnsafePointer())
+			// 16 further bytes follow the encoding, so that a codec that consumes or copies too much has something to copy
+			buf := append(append([]byte(nil), enc...), 0xEE, 0xEE, 0xEE, 0xEE, 0xEE, 0xEE, 0xEE, 0xEE, 0xEE, 0xEE, 0xEE, 0xEE, 0xEE, 0xEE, 0xEE, 0xEE)
+			_ = codec.Read(avro.NewReadBuf(buf), hv.UnsafePointer())
 		}()
 		for i := range mem {
 			if mem[i] != expect[i] {
